@@ -106,7 +106,17 @@ fn strong_case(cfg: &Config, idx: u64, r: &mut Rng, st: &mut Stats) {
     let (Ok(lp), Ok(rp)) = (parse_program(&l), parse_program(&rt)) else { return };
     let mu = r.chance(1, 2);
     let mut fams = Vec::new();
-    for fl in Flags::all_for(Dir::Universal) {
+    // every third of the first cases compares one simplifying family with its non-simplifying
+    // twin only: two builds instead of eight, so that a change which makes the builds slow still
+    // lets enough cases through
+    let flag_sets: Vec<Flags> = if idx < 300 && idx % 3 == 0 {
+        let sequential = r.chance(1, 2);
+        let break_equivalences = r.chance(1, 2);
+        vec![Flags { sequential, direction: Dir::Universal, simplify: false, break_equivalences }, Flags { sequential, direction: Dir::Universal, simplify: true, break_equivalences }]
+    } else {
+        Flags::all_for(Dir::Universal)
+    };
+    for fl in flag_sets {
         match build_strong(&lp, &rp, mu, fl) {
             Built::Ok { problems, .. } => fams.push((fl, problems)),
             _ => {
